@@ -54,7 +54,11 @@ package rsyncd
 //@ spec func aclCovers(a: Str, ip: int): bool = aclWho(a) == "all" || netContains(cidrNet(aclWho(a)), ip)
 //@ spec func aclSkips(a: Str, ip: int): bool = aclWF(a) && !aclCovers(a, ip)
 //@ spec func aclGrants(a: Str, ip: int): bool = aclWF(a) && aclCovers(a, ip) && aclAct(a) == "allow"
-//@ spec func aclDecision(acls: []string, ip: int): bool = (exists j :: 0 <= j && j < len(acls) && aclGrants(acls[j], ip) && (forall k :: 0 <= k && k < j ==> aclSkips(acls[k], ip))) || (forall k :: 0 <= k && k < len(acls) ==> aclSkips(acls[k], ip))
+// aclFrom(acls, ip, i): the decision of rules i, i+1, ...: a malformed rule
+// that is reached is an error (false); the first rule whose network covers
+// the address decides (allow => true, deny => false); no rule left => true.
+//@ spec rec func aclFrom(acls: []string, ip: int, i: int): bool = ite(i >= len(acls), true, ite(!aclWF(acls[i]), false, ite(aclCovers(acls[i], ip), aclAct(acls[i]) == "allow", aclFrom(acls, ip, i + 1))))
+//@ spec func aclDecision(acls: []string, ip: int): bool = aclFrom(acls, ip, 0)
 //@ spec func addrOK(a: Str): bool = hostPortOK(a) && ipOK(hostOf(a))
 //@ spec func aclAllows(acls: []string, addr: Str): bool = len(acls) == 0 || addrOK(addr) && aclDecision(acls, ipIdOf(hostOf(addr)))
 
@@ -69,7 +73,7 @@ package rsyncd
 //@   ensures [empty-list-grants] len(acls) == 0 ==> err == nil
 //@   ensures [bad-address-denied] len(acls) > 0 && !addrOK(remoteAddr) ==> err != nil
 //@   ensures [first-match] len(acls) > 0 && addrOK(remoteAddr) ==> (err == nil <==> aclDecision(acls, ipIdOf(hostOf(remoteAddr))))
-//@   loop 0: invariant [earlier-rules-skipped] forall k :: 0 <= k && k <= rangeindex ==> aclSkips(acls[k], ipIdOf(hostOf(remoteAddr)))
+//@   loop 0: invariant [earlier-rules-skipped] aclFrom(acls, ipIdOf(hostOf(remoteAddr)), 0) <==> aclFrom(acls, ipIdOf(hostOf(remoteAddr)), rangeindex + 1)
 //@   loop 0: invariant addrOK(remoteAddr) && -1 <= rangeindex
 
 //@ func (*rsyncd.Server).getModule
